@@ -31,6 +31,13 @@ objs=[(v, np.array([[0.125],[0.25],[0.625],[0.9375]])), (as_vector([f*v, x[0]*v.
 m=mesh("tetrahedron"); V=space(m,"P",2); v=TestFunction(V); f=Coefficient(V); n=FacetNormal(m)
 mh=mesh("hexahedron"); Vh=space(mh,"Q",1); vh=TestFunction(Vh); fh=Coefficient(Vh)
 objs=[(f*v + dot(grad(v),n), np.array([[0.125,0.25],[0.5,0.125],[0.0625,0.75]])), (fh*vh, np.array([[0.125,0.25],[0.75,0.375]]))]'''),
+    # gradients on the facets of tensor-product cells: tables that are constant along some facets and vary along others
+    corpus._c("c04_facet_points_quad_gradients", '''
+m=mesh("quadrilateral"); V=space(m,"Q",1); f=Coefficient(V); u=TrialFunction(V); W=space(m,"Q",2); g=Coefficient(W)
+objs=[(grad(f), np.array([[0.125],[0.5],[0.8125]])), (grad(u), np.array([[0.25],[0.6875]])), (grad(grad(g)), np.array([[0.125],[0.5],[0.8125]])), (f.dx(0)*g.dx(1), np.array([[0.0625],[0.9375]]))]'''),
+    corpus._c("c04_facet_points_hex_gradients", '''
+m=mesh("hexahedron"); V=space(m,"Q",1); f=Coefficient(V); u=TrialFunction(V); R=space(m,"RTCF",1) if False else space(m,"Q",2); g=Coefficient(R)
+objs=[(grad(f), np.array([[0.125,0.25],[0.5,0.75],[0.8125,0.0625]])), (u.dx(0)*f.dx(2), np.array([[0.25,0.125],[0.6875,0.5]])), (grad(g)[1]*f.dx(0), np.array([[0.125,0.875],[0.75,0.25]]))]'''),
     corpus._c("c04_interval_p3", '''
 m=mesh("interval"); V=space(m,"P",3); f=Coefficient(V); u=TrialFunction(V)
 objs=[(f.dx(0)*f, np.array([[0.125],[0.5],[0.875]])), (u.dx(0), np.array([[0.25],[0.75]]))]'''),
